@@ -113,16 +113,17 @@ Qed.
 
 Lemma pres_M s a s' : Inv s -> step s a = Some s' -> flags_ok (F s').
 Proof.
-  intros Hi H. pose proof (IM _ _ Hi) as Hm. unfold flags_ok in *. destruct Hm as (M1 & M2 & M3 & M4 & M5 & M6 & M7).
+  intros Hi H. pose proof (IM _ _ Hi) as Hm. unfold flags_ok in *. destruct Hm as (M1 & M2 & M3 & M4 & M5 & M6 & M7 & M8).
   pose proof (IK1 _ _ Hi) as K1. pose proof (IK2 _ _ Hi) as K2. pose proof (IK3 _ _ Hi) as K3.
   pose proof (IK5 _ _ Hi) as K5.
   pose proof (head_bounds _ Bpos _ Hi) as HB. pose proof (tail_bounds _ Bpos _ Hi) as TB.
   pose proof (absq_len _ Bpos _ Hi) as AL.
-  step_cases_r Hi H; repeat split; auto; try (rewrite ?M1, ?M2, ?M3, ?M4, ?M5, ?M6, ?M7; cbn [orb]).
+  step_cases_r Hi H; repeat split; auto; try (rewrite ?M1, ?M2, ?M3, ?M4, ?M5, ?M6, ?M7, ?M8; cbn [orb]).
   all: try reflexivity.
   all: try (apply no_overwrite; assumption).
   all: try (pfacts Hi; brk; first [apply no_recycle_live | apply first_next_nonnull]; assumption).
   all: try (bools; destruct (absq (Q s)); [reflexivity | cbn in AL; lia]).
+  all: try (pfacts Hi; brk; apply orb_false_intro; apply Nat.ltb_ge; lia).
   all: try cfacts Hi; brk.
   - (* peek: the value read is the abstract head *)
     bools. match goal with D : _ = OBulk \/ _ |- _ => destruct D as [D|D]; [congruence|] end.
